@@ -1,0 +1,172 @@
+//go:build verif
+
+package flow
+
+// Contracts for core/flow (properties C02, C10, C11, C13, C14).
+
+//@ spec func blocked(r) = r != nil && r.status == base.ResultStatusBlocked
+
+//@ func (d *RejectTrafficShapingChecker) DoCheck(resStat, batchCount, threshold) r
+//@   props C02
+//@   requires d != nil && d.owner != nil
+//@   let m = d.owner.boundStat.readOnlyMetric
+//@   ensures[nil-stat] m == nil ==> r == nil
+//@   ensures[admit-iff] m != nil ==> (blocked(r) <==> R(old(m.GetSum(base.MetricEventPass))) + R(batchCount) > threshold)
+//@   ensures[pass-is-nil] !blocked(r) ==> r == nil
+//@   ensures[cause] blocked(r) ==> r.blockErr != nil && r.blockErr.blockType == base.BlockTypeFlow && dynptr(r.blockErr.rule) == ref(d.rule) && fresh(r) && fresh(r.blockErr)
+//@   modifies nothing
+
+// ---- protocol ghost state: the sequence of calculator / checker invocations (updated only through interface contracts)
+//@ ghost var gCalcN Int
+//@ ghost var gCalcRecv (Array Int Int)
+//@ ghost var gCalcBatch (Array Int Int)
+//@ ghost var gCalcFlag (Array Int Int)
+//@ ghost var gCalcRes (Array Int Real)
+//@ ghost var gChkN Int
+//@ ghost var gChkRecv (Array Int Int)
+//@ ghost var gChkStat (Array Int Iface)
+//@ ghost var gChkBatch (Array Int Int)
+//@ ghost var gChkThr (Array Int Real)
+//@ ghost var gChkRes (Array Int Int)
+//@ ghost var gChkBlocked (Array Int Bool)
+
+//@ iface TrafficShapingCalculator.CalculateAllowedTokens(batchCount, flag) r
+//@   ensures gCalcN == old(gCalcN) + 1
+//@   ensures gCalcRecv == upd(old(gCalcRecv), old(gCalcN), dynptr(this)) && gCalcBatch == upd(old(gCalcBatch), old(gCalcN), batchCount)
+//@   ensures gCalcFlag == upd(old(gCalcFlag), old(gCalcN), flag) && gCalcRes == upd(old(gCalcRes), old(gCalcN), r)
+//@   modifies gCalcN, gCalcRecv, gCalcBatch, gCalcFlag, gCalcRes, all(WarmUpTrafficShapingCalculator.storedTokens), all(WarmUpTrafficShapingCalculator.lastFilledTime)
+
+//@ iface TrafficShapingChecker.DoCheck(resStat, batchCount, threshold) r
+//@   ensures gChkN == old(gChkN) + 1
+//@   ensures gChkRecv == upd(old(gChkRecv), old(gChkN), dynptr(this)) && gChkStat == upd(old(gChkStat), old(gChkN), resStat)
+//@   ensures gChkBatch == upd(old(gChkBatch), old(gChkN), batchCount) && gChkThr == upd(old(gChkThr), old(gChkN), threshold)
+//@   ensures gChkRes == upd(old(gChkRes), old(gChkN), r) && gChkBlocked == upd(old(gChkBlocked), old(gChkN), blocked(r))
+//@   ensures r != nil ==> fresh(r)
+//@   modifies gChkN, gChkRecv, gChkStat, gChkBatch, gChkThr, gChkRes, gChkBlocked, all(ThrottlingChecker.lastPassedTime)
+
+//@ func (t *TrafficShapingController) PerformChecking(resStat, batchCount, flag) r
+//@   props C02, C10, C11
+//@   requires t != nil && t.rule != nil
+//@   ensures[one-calc]  gCalcN == old(gCalcN) + 1 && gCalcRecv == upd(old(gCalcRecv), old(gCalcN), dynptr(old(t.flowCalculator))) && gCalcBatch == upd(old(gCalcBatch), old(gCalcN), batchCount) && gCalcFlag == upd(old(gCalcFlag), old(gCalcN), flag)
+//@   ensures[calc-frame] forall j Int :: j != old(gCalcN) ==> sel(gCalcRes, j) == sel(old(gCalcRes), j)
+//@   ensures[one-check] gChkN == old(gChkN) + 1 && gChkRecv == upd(old(gChkRecv), old(gChkN), dynptr(old(t.flowChecker))) && gChkBatch == upd(old(gChkBatch), old(gChkN), batchCount) && gChkStat == upd(old(gChkStat), old(gChkN), resStat)
+//@   ensures[threshold-is-calculated] gChkThr == upd(old(gChkThr), old(gChkN), sel(gCalcRes, old(gCalcN)))
+//@   ensures[result-is-checkers] gChkRes == upd(old(gChkRes), old(gChkN), r) && gChkBlocked == upd(old(gChkBlocked), old(gChkN), blocked(r))
+//@   ensures[fresh-result] r != nil ==> fresh(r)
+//@   modifies gCalcN, gCalcRecv, gCalcBatch, gCalcFlag, gCalcRes, all(WarmUpTrafficShapingCalculator.storedTokens), all(WarmUpTrafficShapingCalculator.lastFilledTime), gChkN, gChkRecv, gChkStat, gChkBatch, gChkThr, gChkRes, gChkBlocked, all(ThrottlingChecker.lastPassedTime)
+
+//@ func (d *DirectTrafficShapingCalculator) CalculateAllowedTokens(batchCount, flag) r
+//@   props C02
+//@   requires d != nil
+//@   ensures[is-threshold] r == d.threshold
+//@   modifies nothing
+
+//@ func (s *Slot) Check(ctx) r
+//@   props C02, C10
+//@   requires ctx != nil && ctx.Resource != nil && ctx.Input != nil && ctx.StatNode != nil && !blocked(ctx.RuleCheckResult)
+//@   let tcs = tcMap[ctx.Resource.name]
+//@   let n0 = gChkN
+//@   requires forall k Int :: 0 <= k && k < len(tcs) ==> tcs[k] != nil && tcs[k].rule != nil
+//@   ensures[first-block] blocked(r) ==> gChkN > n0 && r == sel(gChkRes, gChkN - 1) && sel(gChkBlocked, gChkN - 1)
+//@   ensures[none-earlier] forall j Int :: n0 <= j && j < gChkN - (blocked(r) ? 1 : 0) ==> !sel(gChkBlocked, j)
+//@   ensures[all-consulted] !blocked(r) ==> r == old(ctx.RuleCheckResult) && gChkN == n0 + len(tcs)
+//@   ensures[in-order] forall j Int :: n0 <= j && j < gChkN ==> sel(gChkRecv, j) == dynptr(tcs[j - n0].flowChecker) && sel(gChkBatch, j) == ctx.Input.BatchCount
+//@   loop 1:
+//@     invariant[count] gChkN == n0 + #i && #i <= len(tcs)
+//@     invariant[no-block-yet] forall j Int :: n0 <= j && j < gChkN ==> !sel(gChkBlocked, j)
+//@     invariant[in-order] forall j Int :: n0 <= j && j < gChkN ==> sel(gChkRecv, j) == dynptr(tcs[j - n0].flowChecker) && sel(gChkBatch, j) == ctx.Input.BatchCount
+
+//@ spec func independent(tc) = !tc.boundStat.reuseResourceStat && tc.boundStat.writeOnlyMetric != nil
+//@ spec func added(g, m, e) = sel(sel(g, dynptr(m)), e)
+
+//@ func (s StandaloneStatSlot) OnEntryPassed(ctx)
+//@   props C02
+//@   requires ctx != nil && ctx.Resource != nil && ctx.Input != nil
+//@   let tcs = tcMap[ctx.Resource.name]
+//@   let b = ctx.Input.BatchCount
+//@   requires forall k Int :: 0 <= k && k < len(tcs) ==> tcs[k] != nil
+//@   requires[distinct-stats] forall j Int :: forall k Int :: 0 <= j && j < k && k < len(tcs) && independent(tcs[j]) && independent(tcs[k]) ==> dynptr(tcs[j].boundStat.writeOnlyMetric) != dynptr(tcs[k].boundStat.writeOnlyMetric)
+//@   ensures[feeds-batch] forall k Int :: 0 <= k && k < len(tcs) && independent(tcs[k]) ==> added(gAdded, tcs[k].boundStat.writeOnlyMetric, base.MetricEventPass) == added(old(gAdded), tcs[k].boundStat.writeOnlyMetric, base.MetricEventPass) + b
+//@   ensures[nothing-else] forall p Int :: forall e Int :: (forall k Int :: 0 <= k && k < len(tcs) && independent(tcs[k]) ==> !(p == dynptr(tcs[k].boundStat.writeOnlyMetric) && e == base.MetricEventPass)) ==> sel(sel(gAdded, p), e) == sel(sel(old(gAdded), p), e)
+//@   modifies gAdded
+//@   loop 1:
+//@     invariant[done] forall k Int :: 0 <= k && k < #i && independent(tcs[k]) ==> added(gAdded, tcs[k].boundStat.writeOnlyMetric, base.MetricEventPass) == added(old(gAdded), tcs[k].boundStat.writeOnlyMetric, base.MetricEventPass) + b
+//@     invariant[todo] forall k Int :: #i <= k && k < len(tcs) && independent(tcs[k]) ==> added(gAdded, tcs[k].boundStat.writeOnlyMetric, base.MetricEventPass) == added(old(gAdded), tcs[k].boundStat.writeOnlyMetric, base.MetricEventPass)
+//@     invariant[others] forall p Int :: forall e Int :: (forall k Int :: 0 <= k && k < len(tcs) && independent(tcs[k]) ==> !(p == dynptr(tcs[k].boundStat.writeOnlyMetric) && e == base.MetricEventPass)) ==> sel(sel(gAdded, p), e) == sel(sel(old(gAdded), p), e)
+
+// ---- C10: throttling checker, sequential clause set (one caller at a time)
+//@ spec func waiting(r) = r != nil && r.status == base.ResultStatusShouldWait
+//@ func (c *ThrottlingChecker) DoCheck(resStat, batchCount, threshold) r
+//@   props C10
+//@   requires c != nil && c.statIntervalNs > 0 && c.statIntervalNs <= 4294967295000000 && c.maxQueueingTimeNs >= 0 && c.maxQueueingTimeNs <= 4294967295000000
+//@   requires c.lastPassedTime >= 0 && c.lastPassedTime < 4611686018427387904
+//@   let last0 = c.lastPassedTime
+//@   let maxQ = c.maxQueueingTimeNs
+//@   let I = ceil(R(batchCount) / threshold * R(c.statIntervalNs))
+//@   let ok = batchCount > 0 && threshold > 0.0 && R(batchCount) <= threshold
+//@   ensures[zero-batch] batchCount == 0 ==> r == nil && c.lastPassedTime == last0
+//@   ensures[bad-threshold] batchCount > 0 && (threshold <= 0.0 || R(batchCount) > threshold) ==> blocked(r) && c.lastPassedTime == last0
+//@   ensures[reject-iff] ok ==> (blocked(r) <==> last0 + I - clock_ns > maxQ)
+//@   ensures[reject-frame] blocked(r) ==> c.lastPassedTime == last0
+//@   ensures[spacing] ok && !blocked(r) ==> (last0 + I <= clock_ns && c.lastPassedTime == clock_ns) || (last0 + I > clock_ns && c.lastPassedTime == last0 + I)
+//@   ensures[no-bank] ok && !blocked(r) ==> c.lastPassedTime >= clock_ns
+//@   ensures[wait] ok && !blocked(r) ==> (r == nil && c.lastPassedTime == clock_ns) || (waiting(r) && clock_ns + r.nanosToWait == max(c.lastPassedTime, clock_ns) && r.nanosToWait <= maxQ && r.nanosToWait >= 0)
+//@   modifies c.lastPassedTime
+
+// ---- C11: adaptive thresholds
+// memory-adaptive threshold as a function of the memory reading (the property's piecewise-linear envelope)
+//@ spec func adaptive(low, high, mlo, mhi, mem) = mem <= mlo ? R(low) : (mem >= mhi ? R(high) : R(high - low) / R(mhi - mlo) * R(mem - mlo) + R(low))
+//@ spec func validAdaptive(m) = m.lowMemUsageThreshold > 0 && m.highMemUsageThreshold > 0 && m.highMemUsageThreshold < m.lowMemUsageThreshold && m.memLowWaterMark > 0 && m.memHighWaterMark > m.memLowWaterMark
+
+//@ func (m *MemoryAdaptiveTrafficShapingCalculator) CalculateAllowedTokens(batchCount, flag) r
+//@   props C11
+//@   requires m != nil && validAdaptive(m)
+//@   let mem = system_metric.CurrentMemoryUsage()
+//@   ensures[not-retrieved] mem == system_metric.NotRetrievedMemoryValue ==> r == R(m.lowMemUsageThreshold)
+//@   ensures[envelope] mem != system_metric.NotRetrievedMemoryValue ==> r == adaptive(m.lowMemUsageThreshold, m.highMemUsageThreshold, m.memLowWaterMark, m.memHighWaterMark, mem)
+//@   ensures[low-mark] mem != system_metric.NotRetrievedMemoryValue && mem <= m.memLowWaterMark ==> r == R(m.lowMemUsageThreshold)
+//@   ensures[high-mark] mem >= m.memHighWaterMark ==> r == R(m.highMemUsageThreshold)
+//@   ensures[between] R(m.highMemUsageThreshold) <= r && r <= R(m.lowMemUsageThreshold)
+//@   modifies nothing
+
+//@ lemma adaptive-monotone {C11}: forall low Int :: forall high Int :: forall mlo Int :: forall mhi Int :: forall m1 Int :: forall m2 Int :: 0 < high && high < low && 0 < mlo && mlo < mhi && m1 <= m2 ==> adaptive(low, high, mlo, mhi, m1) >= adaptive(low, high, mlo, mhi, m2)
+
+//@ func NewMemoryAdaptiveTrafficShapingCalculator(owner, r) c
+//@   props C11
+//@   requires r != nil
+//@   ensures[copies] c != nil && fresh(c) && c.lowMemUsageThreshold == r.LowMemUsageThreshold && c.highMemUsageThreshold == r.HighMemUsageThreshold && c.memLowWaterMark == r.MemLowWaterMarkBytes && c.memHighWaterMark == r.MemHighWaterMarkBytes && c.owner == owner
+//@   modifies nothing
+
+// warm-up: representation invariant established by the constructor for rules accepted by IsValidRule
+//@ spec func wuInv(c) = c.threshold > 0.0 && c.slope >= 0.0 && c.warningToken <= c.maxToken && c.maxToken < 4611686018427387904 && c.coldFactor >= 2
+
+//@ spec func wuSlope(c) = c.slope == R(c.coldFactor - 1) / c.threshold / R(c.maxToken - c.warningToken)
+//@ func (c *WarmUpTrafficShapingCalculator) CalculateAllowedTokens(batchCount, flag) r
+//@   props C11
+//@   requires c != nil && c.owner != nil && wuInv(c) && c.owner.boundStat.readOnlyMetric != nil
+//@   requires 0 <= c.storedTokens && c.storedTokens <= c.maxToken
+//@   ensures[bounds] 0.0 < r && r <= c.threshold
+//@   ensures[tokens] 0 <= c.storedTokens && c.storedTokens <= c.maxToken
+//@   ensures[above-warning] c.storedTokens >= c.warningToken ==> r == 1.0 / (R(c.storedTokens - c.warningToken) * c.slope + 1.0 / c.threshold)
+//@   ensures[below-warning] c.storedTokens < c.warningToken ==> r == c.threshold
+//@   modifies c.storedTokens, c.lastFilledTime
+
+// cold start: a full bucket yields threshold/coldFactor when the slope is the one the constructor computes
+//@ lemma warmup-cold-start {C11}: forall thr Real :: forall cf Int :: forall mx Int :: forall wn Int :: thr > 0.0 && cf >= 2 && mx > wn ==> 1.0 / (R(mx - wn) * (R(cf - 1) / thr / R(mx - wn)) + 1.0 / thr) == thr / R(cf)
+
+//@ func NewWarmUpTrafficShapingCalculator(owner, rule) r
+//@   props C11
+//@   requires rule != nil && rule.Threshold >= 0.0 && rule.WarmUpPeriodSec > 0 && rule.WarmUpColdFactor != 1
+//@   requires rule.Threshold <= 1000000.0
+//@   let cf = rule.WarmUpColdFactor <= 1 ? config.DefaultWarmUpColdFactor : rule.WarmUpColdFactor
+//@   case regular: rule.Threshold > 0.0 && cf < 4294967295 && 2.0 * R(rule.WarmUpPeriodSec) * rule.Threshold >= R(1 + cf)
+//@   case degenerate: !(rule.Threshold > 0.0 && cf < 4294967295 && 2.0 * R(rule.WarmUpPeriodSec) * rule.Threshold >= R(1 + cf))
+//@   witness threshold = rule.Threshold
+//@   witness period = rule.WarmUpPeriodSec
+//@   witness coldFactor = rule.WarmUpColdFactor
+//@   replay flow_warmup_new
+//@   ensures[is-warmup] typeis(r, "*core/flow.WarmUpTrafficShapingCalculator")
+//@   ensures[inv] wuInv(cast(dynptr(r), WarmUpTrafficShapingCalculator))
+//@   ensures[cold-start-slope] wuSlope(cast(dynptr(r), WarmUpTrafficShapingCalculator))
+//@   ensures[empty-bucket] cast(dynptr(r), WarmUpTrafficShapingCalculator).storedTokens == 0
+//@   modifies rule.WarmUpColdFactor
